@@ -46,7 +46,7 @@ int run_perm_readers(const Args& a) {
             s.leave();
         }
         std::atomic<bool> stop{false};
-        std::atomic<uint64_t> reads{0}, overlapped{0}, perm_updates{0};
+        std::atomic<uint64_t> reads{0}, overlapped{0}, perm_updates{0}, shared_inserts{0};
         std::vector<std::thread> th;
         for (int t = 0; t < 7; ++t) {
             th.emplace_back([&, t] {
@@ -59,7 +59,21 @@ int run_perm_readers(const Args& a) {
                 if (t < 2) {
                     auto& mine = owned[t];
                     std::vector<bool> present(mine.size(), true);
+                    const std::string shared_key = prefix + "S";
                     while (!stop.load(std::memory_order_acquire)) {
+                        if (tr.chance(1, 4)) {
+                            // both writers race to insert the same absent key: the node must end up with one entry for it
+                            status us = yput(ses.tok, storage, shared_key, make_value(next_id.fetch_add(1), shared_key, 24), true);
+                            if (us == status::OK) {
+                                shared_inserts.fetch_add(1, std::memory_order_relaxed);
+                                status rs = yk::remove(ses.tok, storage, shared_key);
+                                if (rs != status::OK) { rep.violation("perm:owner-op-status", "remove of the key this thread just inserted failed", JObj().str("key", shared_key).str("got", st(rs)).done()); }
+                                perm_updates.fetch_add(2, std::memory_order_release);
+                            } else if (us != status::WARN_UNIQUE_RESTRICTION) {
+                                rep.violation("perm:owner-op-status", "unique insert of the contended key returned an unexpected status", JObj().str("got", st(us)).done());
+                            }
+                            continue;
+                        }
                         std::size_t i = tr.below(mine.size());
                         status s;
                         if (present[i]) {
@@ -140,6 +154,7 @@ int run_perm_readers(const Args& a) {
         total_reads += reads.load();
         total_overlap += overlapped.load();
         rep.count("permutation_updates", perm_updates.load());
+        rep.count("contended_inserts_of_one_key", shared_inserts.load());
         // quiescent: permutation words are valid orderings
         yk::tree_instance* ti = nullptr;
         yk::find_storage(storage, &ti);
